@@ -1,6 +1,8 @@
 import FastgoModel.Proofs.ReaderDelivery
 import FastgoModel.Proofs.FaithfulInstance
 import FastgoModel.Props.C10
+import FastgoModel.Proofs.FrameUncond
+import FastgoModel.Reader.FaithfulCheck
 /-!
 # C02 — the Reader decodes every valid stream exactly, whatever destination sizes Read is given
 
@@ -91,8 +93,24 @@ example :
            .data ((Writer.exData.drop 4).take 13) none, .data [] (some .eof)] := by
   decide +kernel
 
+/-- **a checked session is complete**: when the source holds a valid stream (the specification decodes it to the end)
+    followed by anything, a session of the REAL Reader that passes the F check `checkFaithful` with io.EOF has delivered
+    exactly the stream's data, no more and no less — whatever the chunking, buffer size and Read sizes of that session were
+    (they do not enter the check). -/
+theorem C02_checked_session_complete (stream suffix delivered : List UInt8) (consumed : Nat) (cut : Bool)
+    (out : Array UInt8) (rest : Spec.Bits) (st : Spec.Stats)
+    (hs : Spec.inflate .permissive [] stream = .done out rest st) (hr : rest.length < 8)
+    (hc : checkFaithful (stream ++ suffix) delivered .eof consumed cut = true) :
+    delivered = out.toList := by
+  obtain ⟨out', rest', st', h1, hd, _⟩ := checkFaithful_eof (stream ++ suffix) delivered consumed cut hc
+  obtain ⟨st2, h2⟩ := Spec.inflate_prefix_stable .permissive stream suffix out rest st hs hr
+  rw [h2] at h1
+  simp only [Spec.Result.done.injEq] at h1
+  rw [hd, ← h1.1]
+
 end Fastgo.Reader
 
+#print axioms Fastgo.Reader.C02_checked_session_complete
 #print axioms Fastgo.Reader.C02_delivery
 #print axioms Fastgo.Reader.C02_eof_complete
 #print axioms Fastgo.Reader.C02_eof_complete_from_start
